@@ -42,11 +42,23 @@ var c16PRF = probe.Define("C16", "prf-prime", func(t *rapid.T) c16In {
 	return in
 }, func(in c16In) probe.Outcome {
 	var kEncr, kAut, kRe, msk, emsk []byte
+	carved := (len(in.IK)+len(in.Identity))%2 == 1 // a function of the input: the case stays reproducible
+	unchanged := func() error { return nil }
 	err := probe.Try(func() error {
 		var e error
-		kEncr, kAut, kRe, msk, emsk, e = eap.EapAkaPrimePRF(append([]byte(nil), in.IK...), append([]byte(nil), in.CK...), string(in.Identity))
+		ik, ck := append([]byte(nil), in.IK...), append([]byte(nil), in.CK...)
+		if carved {
+			// IK' and CK' as the caller got them from the AKA functions: back to back in one buffer
+			var v [][]byte
+			v, unchanged = probe.Carve(in.IK, in.CK)
+			ik, ck = v[0], v[1]
+		}
+		kEncr, kAut, kRe, msk, emsk, e = eap.EapAkaPrimePRF(ik, ck, string(in.Identity))
 		return e
 	})
+	if err := unchanged(); err != nil {
+		return probe.Fail("EapAkaPrimePRF(IK', CK' held back to back in one buffer): %v", err)
+	}
 	if probe.IsPanic(err) {
 		return probe.Fail("EapAkaPrimePRF panics: %v", err)
 	}
@@ -95,6 +107,9 @@ var c16PRF = probe.Define("C16", "prf-prime", func(t *rapid.T) c16In {
 		}
 	}
 	var labels []string
+	if carved {
+		labels = append(labels, "keys-share-one-buffer")
+	}
 	if len(in.IK) != len(in.CK) {
 		labels = append(labels, "iklen!=cklen")
 	}
